@@ -234,8 +234,166 @@ def rule_shapes(F, R, rule="R14-shapes"):
         R.cannot(rule, "Bytes::deserialize", "anchor not found")
 
 
+def _hint_terms(e, body=None, depth=0):
+    """split a length-hint expression into terms: ('len', x) | ('count', x) | ('bool', x) | ('lit', k) | ('?', kind)"""
+    e = strip(e)
+    if e.get("k") == "Binary" and e["op"] == "Add":
+        return _hint_terms(e["l"], body, depth) + _hint_terms(e["r"], body, depth)
+    v = lit_value(e)
+    if isinstance(v, int):
+        return [("lit", v)]
+    if e.get("k") == "MethodCall" and e["m"] == "len":
+        return [("len", local_name(chain(e)[0]) or "self")]
+    if e.get("k") == "MethodCall" and e["m"] == "count":
+        return [("count", "iter")]
+    if e.get("k") == "Call" and norm(e.get("callee", "")).endswith("From::from") and norm(e["args"][0].get("ty", "")) == "bool":
+        return [("bool", "cond")]
+    if e.get("k") == "Cast" and norm(strip(e["e"]).get("ty", "")) == "bool":
+        return [("bool", "cond")]
+    if e.get("k") == "If":
+        return [("bool", "cond")]
+    nm = local_name(e)
+    if nm and body is not None and depth < 3:
+        for st in exprs(body, "SLet"):
+            if st["pat"].get("name") == nm and "init" in st:
+                return _hint_terms(st["init"], body, depth + 1)
+    return [("?", e.get("k"))]
+
+
+def rule_lenhint(F, R, rule="R14-lenhint"):
+    """the length announced to serialize_map/serialize_seq accounts for every entry that is written: serde_json closes
+    the object/array at once for a hint of Some(0), so a later entry lands after the closing brace"""
+    n = 0
+    for C in (F.engine, F.ffi):
+        for imp in C.impls:
+            if imp.get("trait") != "serde_core::ser::Serialize" or imp["derived"] or imp.get("exp"):
+                continue
+            for it in imp["items"]:
+                hb = C.hir_by_dp.get(it["dp"])
+                if not hb or "body" not in hb:
+                    continue
+                fn = norm(hb["path"])
+                body = hb["body"]
+                for c in exprs(body, ("Call", "MethodCall"), into_closures=False):
+                    cal = norm(c.get("callee", ""))
+                    if not (cal.endswith("Serializer::serialize_map") or cal.endswith("Serializer::serialize_seq")):
+                        continue
+                    n += 1
+                    harg = strip(call_args(c)[1])
+                    if def_path(harg) == "core::option::Option::None":
+                        R.ok(rule, fn, "no length is announced (None)", where=c["sp"])
+                        continue
+                    if not (harg.get("k") == "Call" and norm(harg.get("callee", "")) == "core::option::Option::Some"):
+                        R.undecided(rule, fn, "length hint of unknown form", where=c["sp"])
+                        continue
+                    terms = _hint_terms(harg["args"][0], body)
+                    # entry sites written under this call's own branch (its arm stack is a prefix of theirs)
+                    st_c = None
+                    for n2, st in walk_arms(body):
+                        if n2 is c:
+                            st_c = st
+                    st_c = st_c or ()
+                    sites = []
+                    for n2, st in walk_arms(body):
+                        if n2.get("k") in ("Call", "MethodCall") and re.search(r"Serialize(Map|Seq)::serialize_(entry|element|key)$", norm(n2.get("callee", ""))):
+                            if st[:len(st_c)] == st_c:
+                                sites.append((n2, st[len(st_c):]))
+                    # classify with a second pass that knows loops
+                    kinds = []
+                    seen_groups = set()
+                    for n2, st in sites:
+                        loop = _inside_for_loop(body, n2)
+                        conds = [e_ for e_ in st if e_[0] == "if"]
+                        # `if let Some(..) = ..` inside the loop body, or an `if` around the call
+                        conditional = bool(conds)
+                        user_match = [e_ for e_ in st if e_[0] != "if" and not e_[0].startswith("core::ops::control_flow") and
+                                      not (e_[0].startswith("core::option::Option<") and loop)]
+                        if user_match and not loop:
+                            g = user_match[-1][0]
+                            if g in seen_groups:
+                                continue
+                            seen_groups.add(g)
+                        if loop:
+                            kinds.append("count" if conditional else "len")
+                        else:
+                            kinds.append("bool" if conditional else "lit")
+                    want = sorted(kinds)
+                    got = []
+                    for t, v in terms:
+                        if t == "lit":
+                            got += ["lit"] * v
+                        else:
+                            got.append(t)
+                    ok = sorted(got) == want
+                    R.check(ok, rule, fn, "the announced length accounts for every entry written",
+                            "announces %s but writes entries of kinds %s (len = one per element of a loop, count = conditional per "
+                            "element, bool = one conditional entry, lit = one unconditional entry): with a hint of Some(0) serde_json "
+                            "closes the container before the remaining entries" % (terms, want), c["sp"])
+    R.floor(rule, "serialize_map / serialize_seq calls in hand-written serializers", n, 6)
+
+
+def _inside_for_loop(body, node):
+    found = [False]
+
+    def go(n, in_loop):
+        if n is node:
+            found[0] = in_loop
+            return True
+        k = n.get("k")
+        nxt = in_loop or (k == "Loop" and str(n.get("src", "")).startswith("ForLoop")) or \
+            (k == "MethodCall" and n.get("m") in ("for_each", "try_for_each"))
+        for c in children(n):
+            if go(c, nxt):
+                return True
+        return False
+    go(body, False)
+    return found[0]
+
+
+def rule_keyorder(F, R, rule="R14-keyorder"):
+    """a hand-written visit_map must not depend on the order of the keys: a value tree (and any producer that sorts or
+    reorders keys) delivers them in a different order than the writer emitted them"""
+    n = 0
+    for C in (F.engine, F.ffi):
+        for imp in C.impls:
+            if imp.get("trait") != "serde_core::de::Visitor" or imp["derived"] or imp.get("exp"):
+                continue
+            for it in imp["items"]:
+                if it["name"] != "visit_map":
+                    continue
+                hb = C.hir_by_dp.get(it["dp"])
+                if not hb or "body" not in hb:
+                    continue
+                n += 1
+                fn = norm(hb["path"])
+                keys = [c for c in exprs(hb["body"], "MethodCall") if c["m"] in ("next_key", "next_key_seed", "next_entry", "next_entry_seed")]
+                outside = [c for c in keys if not _inside_loop_any(hb["body"], c)]
+                R.check(not outside, rule, fn, "keys are consumed in a loop, in whatever order they arrive",
+                        "%d key request(s) outside a loop: the visitor expects the keys in one fixed order and rejects the same "
+                        "map when they arrive in another (e.g. from a serde_json::Value, which sorts keys)" % len(outside), hb["span"])
+    R.floor(rule, "hand-written visit_map implementations", n, 4)
+
+
+def _inside_loop_any(body, node):
+    found = [False]
+
+    def go(n, in_loop):
+        if n is node:
+            found[0] = in_loop
+            return True
+        nxt = in_loop or n.get("k") == "Loop"
+        for c in children(n):
+            if go(c, nxt):
+                return True
+        return False
+    go(body, False)
+    return found[0]
+
+
 def run(F, R, tier):
     rule_panic(F, R)
+    rule_lenhint(F, R)
+    rule_keyorder(F, R)
     n = rule_borrow(F, R, scope=lambda fn: "scheme::Scheme" not in fn and "SerdeField" not in fn)
     R.floor("R14-borrow", "typed serde requests", n, 30)
     rule_store(F, R)
